@@ -1,15 +1,15 @@
 """Generator for Gen/Names.lean (C12): the decision structure of name resolution in evaluation.py,
 re-read from the source on every run.
 
-  * Referent.value                  -> the preference order (container, value, annotation) as a Lean function
-  * NameContainer.load_values       -> the statements of the expansion loop (setdefault / container creation /
-                                       value assignment on the final component)
-  * NameContainer.find_name         -> the branch order (empty path, missing head, end of path, container,
-                                       mapping value via dict_find_name, TypeError)
-  * NameContainer.resolve_name      -> package loop from the longest prefix, parent chain, which exceptions mean
-                                       "no match", KeyError when nothing matched, `max` by path length
-  * Activation.resolve_variable / __getattr__, Evaluator.member_dot (NameContainer branch)
-  * macro variable binding: Evaluator.sub_evaluator / set_activation and macro_* use nested_activation
+  * NameContainer.load_values / load_annotations -> the statements of the expansion loop (setdefault / container
+                                                   creation / value assignment on the final component)
+  * NameContainer.parent_iter       -> this container first, then the parents
+  * Evaluator.member_dot (NameContainer branch), the transpiled `activation.<ident>` / `.get('<f>')` templates
+  * macro variable binding: Activation.nested_activation / __init__, Evaluator.sub_evaluator / set_activation,
+    macro_* use nested_activation
+
+Referent.value, find_name, dict_find_name, resolve_name, NameContainer.get, Activation.resolve_variable / __getattr__
+are NOT recognised by shape any more: gen_c12_py.py dumps their abstract syntax and the bridge runs it (round 2).
 
 Shapes outside the recognised ones raise TranslationError (handled like a broken bridge).
 """
